@@ -569,7 +569,9 @@ func ruleLevelTables(r *Run, p *Prog) {
 		return
 	}
 	lc := levelConsts(p)
-	paths, complete := enumPaths(pl, 1, 4000)
+	plOrig := pl
+	pl = p.View(pl, "", nil)
+	paths, complete := enumPaths(pl, 2, 8000)
 	if !complete {
 		r.Fail("LVLTAB", "ParseLevel/paths", p.Pos(pl.Pos()), "cannot enumerate paths")
 		return
@@ -590,6 +592,7 @@ func ruleLevelTables(r *Run, p *Prog) {
 		cons := fmt.Sprintf("ParseLevel/path#%d", i)
 		// find the EqualFold comparison that succeeded
 		var matched *int64
+		var matchedVal ssa.Value
 		bad := false
 		for _, c := range pa.Cmps() {
 			call, ok := c.X.(*ssa.Call)
@@ -609,10 +612,34 @@ func ruleLevelTables(r *Run, p *Prog) {
 			}
 			if v, ok := constInt(inner.Call.Args[0]); ok {
 				matched = &v
+			} else {
+				matchedVal = inner.Call.Args[0]
 			}
 			if !isParam(call.Call.Args[0], pl, 0) {
 				bad = true
 			}
+		}
+		if matched == nil && matchedVal != nil {
+			// table form: the level whose text matched is the level returned — `for i := range T {
+			// if EqualFold(s, F(T[i])) { return T[i] } }`; the levels covered are the table's contents
+			sameElem := func(a, b ssa.Value) bool {
+				la, ok1 := a.(*ssa.UnOp)
+				lb, ok2 := b.(*ssa.UnOp)
+				if !ok1 || !ok2 || la.Op != token.MUL || lb.Op != token.MUL {
+					return a == b
+				}
+				ia, ok1 := la.X.(*ssa.IndexAddr)
+				ib, ok2 := lb.X.(*ssa.IndexAddr)
+				return ok1 && ok2 && ia.X == ib.X && ia.Index == ib.Index
+			}
+			good := !bad && sameElem(res, matchedVal)
+			r.Ob("LVLTAB", cons+"/table", p.Pos(ret.Pos()), good, true, tern(good, "the level whose text matched is the level returned (table lookup)", "a table lookup returns "+descr(res)+" for the text of "+descr(matchedVal)))
+			if good {
+				for _, v := range levelTableContents(p, pl, matchedVal) {
+					covered[v] = true
+				}
+			}
+			continue
 		}
 		if matched != nil {
 			v, ok := constInt(res)
@@ -683,7 +710,7 @@ func ruleLevelTables(r *Run, p *Prog) {
 	if ut := p.Method("", "Level", "UnmarshalText"); r.Anchor(ut != nil, "LVLTAB", "(*Level).UnmarshalText") {
 		ok := false
 		eachInstr(ut, func(b *ssa.BasicBlock, i int, in ssa.Instruction) {
-			if c, isC := in.(*ssa.Call); isC && staticCallee(&c.Call) == pl {
+			if c, isC := in.(*ssa.Call); isC && staticCallee(&c.Call) == plOrig {
 				ok = true
 			}
 		})
@@ -726,4 +753,124 @@ func ruleLevelStringArms(r *Run, p *Prog, st *ssa.Function, lc map[string]int64)
 		ok := len(srcOf[k]) == 1
 		r.Ob("LVLTAB", "Level.String/arm:"+k, p.Pos(st.Pos()), ok, true, fmt.Sprintf("levels %v print as %s", srcOf[k], k))
 	}
+}
+
+// levelTableContents: v is a load of T[i] with T a package-level array (or slice literal) filled by
+// constant stores in the package initialiser and i the counter of a loop that visits all of T:
+// returns the constants stored in T.
+func levelTableContents(p *Prog, f *ssa.Function, v ssa.Value) []int64 {
+	ld, ok := v.(*ssa.UnOp)
+	if !ok || ld.Op != token.MUL {
+		return nil
+	}
+	ia, ok := ld.X.(*ssa.IndexAddr)
+	if !ok {
+		return nil
+	}
+	g, ok := ia.X.(*ssa.Global)
+	if !ok {
+		return nil
+	}
+	arr, ok := derefType(g.Type()).Underlying().(*types.Array)
+	if !ok {
+		return nil
+	}
+	// the loop visits every index: counter from 0 (or -1 in go/ssa's range form) step 1 up to len(T)
+	idx := ia.Index
+	var ph *ssa.Phi
+	rangeForm := false
+	if inc, ok := idx.(*ssa.BinOp); ok && inc.Op == token.ADD {
+		if one, ok := constInt(inc.Y); ok && one == 1 {
+			ph, _ = inc.X.(*ssa.Phi)
+			rangeForm = true
+		}
+	} else {
+		ph, _ = idx.(*ssa.Phi)
+	}
+	if ph == nil || !isLoopHeader(ph.Block()) {
+		return nil
+	}
+	for k, e := range ph.Edges {
+		if ph.Block().Dominates(ph.Block().Preds[k]) {
+			continue
+		}
+		n, ok := constInt(e)
+		if !ok || (rangeForm && n != -1) || (!rangeForm && n != 0) {
+			return nil
+		}
+	}
+	bound := false
+	if ifi, ok := ph.Block().Instrs[len(ph.Block().Instrs)-1].(*ssa.If); ok {
+		if bo, ok := ifi.Cond.(*ssa.BinOp); ok && bo.Op == token.LSS && bo.X == idx {
+			if n, ok := constInt(bo.Y); ok && n == arr.Len() {
+				bound = true
+			}
+			if lc, ok := bo.Y.(*ssa.Call); ok && builtinName(&lc.Call) == "len" {
+				bound = true
+			}
+		}
+	}
+	if !bound {
+		return nil
+	}
+	// contents: constant stores T[k] = c in the package initialiser, one per index
+	vals := map[int64]int64{}
+	fns := append([]*ssa.Function{}, p.ModFns...)
+	if pi := g.Pkg.Func("init"); pi != nil {
+		fns = append(fns, pi) // package-level initialisers live in the synthetic init
+	}
+	for _, fn := range fns {
+		if fn.Pkg != g.Pkg || fn.Parent() != nil || !(fn.Name() == "init" || strings.HasPrefix(fn.Name(), "init#")) {
+			// any store elsewhere makes the contents unknown
+			bad := false
+			eachInstr(fn, func(b *ssa.BasicBlock, i int, in ssa.Instruction) {
+				if st, ok := in.(*ssa.Store); ok {
+					if sia, ok := st.Addr.(*ssa.IndexAddr); ok && sia.X == ssa.Value(g) {
+						bad = true
+					}
+					if st.Addr == ssa.Value(g) {
+						bad = true
+					}
+				}
+			})
+			if bad {
+				return nil
+			}
+			continue
+		}
+		// a composite literal is assembled in a local and copied over as a whole
+		var lit *ssa.Alloc
+		eachInstr(fn, func(b *ssa.BasicBlock, i int, in ssa.Instruction) {
+			if st, ok := in.(*ssa.Store); ok && st.Addr == ssa.Value(g) {
+				if ld, ok := st.Val.(*ssa.UnOp); ok && ld.Op == token.MUL {
+					lit, _ = ld.X.(*ssa.Alloc)
+				}
+			}
+		})
+		eachInstr(fn, func(b *ssa.BasicBlock, i int, in ssa.Instruction) {
+			st, ok := in.(*ssa.Store)
+			if !ok {
+				return
+			}
+			sia, ok := st.Addr.(*ssa.IndexAddr)
+			if !ok || !(sia.X == ssa.Value(g) || lit != nil && sia.X == ssa.Value(lit)) {
+				return
+			}
+			k, ok1 := constInt(sia.Index)
+			c, ok2 := constInt(st.Val)
+			if ok1 && ok2 {
+				vals[k] = c
+			}
+		})
+	}
+	var out []int64
+	for k := int64(0); k < arr.Len(); k++ {
+		c, ok := vals[k]
+		if !ok {
+			// an element left at its zero value
+			c = 0
+		}
+		out = append(out, c)
+	}
+	return out
 }
